@@ -111,6 +111,7 @@ def programs_for(src: str) -> dict:
         "or": PROGRAM_PRELUDE + f"print({src} or f())\n",
         "ifexp": f"print(1 if {src} else 2)\n",
         "comp": f"print([i for i in (1, 2) if {src}])\n",
+        "val": f"print({src})\n",
     }
 
 
@@ -332,18 +333,26 @@ def check(run: common.Run):
     sweep_exprs += [t for lab, t in l1[::(97 if run.tier == "quick" else 5)]]
     sweep_exprs += T.L1_REPS + [t for _, t in l2[::(401 if run.tier == "quick" else 29)]]
     sweep_exprs = [t for t in sweep_exprs if not outside_claim(t)]
-    jobs, meta = [], []
+    jobs, meta, terms_of_job = [], [], []
     for t in sweep_exprs:
         src = T.to_src(t)
         for shape, text in programs_for(src).items():
+            if shape == "val" and not foldable_shape(t):
+                continue
             for rule in RULES_FOR_SHAPE[shape]:
                 jobs.append((rule, text))
                 meta.append((src, shape, rule))
+                terms_of_job.append(t)
+    for rule, text in FIXED_PROGRAM_WITNESSES:
+        jobs.append((rule, text))
+        meta.append(("<fixed witness>", "witness", rule))
+        terms_of_job.append(None)
     for t in sweep_exprs[:: (3 if run.tier == "quick" else 1)]:
         src = T.to_src(t)
         for shape in ("if", "and", "comp"):
             jobs.append(("format_code", programs_for(src)[shape]))
             meta.append((src, shape, "format_code"))
+            terms_of_job.append(None)
     # failing-input search: every disagreeing expression goes through all program shapes and rules
     search_from = len(jobs)
     for d in [d for d in disagreements if "expr" in d][:12]:
@@ -352,6 +361,7 @@ def check(run: common.Run):
                          "simplify_boolean_expressions", "format_code"):
                 jobs.append((rule, text))
                 meta.append((d["expr"], shape, rule))
+                terms_of_job.append(None)
     pres = c15_worker.run_jobs(jobs, make_program_job(mods), nproc, str(wd / "sandbox"))
     failures = []
     changed = 0
@@ -363,6 +373,39 @@ def check(run: common.Run):
         if v:
             failures.append({"expr": src, "shape": shape, "rule": rule, "program": text,
                              "output": (r or {}).get("new"), "problem": v})
+
+    # ---- consumer correspondence: what each rule did to the fixed shapes vs ConstFoldModel
+    cons_items = []
+    for (src, shape, rule), (_, text), r, t in zip(meta, jobs, pres, terms_of_job):
+        if t is None or (shape, rule) not in CONS_SHAPE or not r or "new" not in r:
+            continue
+        # the rule also rewrites nested nodes of its own kind (in several passes): compare only where it cannot
+        if contains_kind(t, "bool" if rule == "remove_redundant_boolop_values" else "if"):
+            continue
+        cons_items.append((CONS_SHAPE[(shape, rule)], t, observed_code(src, shape, rule, text, r["new"]), rule, text,
+                           r["new"]))
+        hist[f"cons:{rule}:{cons_items[-1][2]}"] += 1
+    cfiles, cshards = [], []
+    for k in range(0, len(cons_items), SHARD):
+        shard = cons_items[k:k + SHARD]
+        body = ";\n ".join(f"({c[0]}%nat, {T.gexpr(c[1])}, {c[2]}%nat)" for c in shard)
+        p = wd / f"cons_{k // SHARD}.v"
+        p.write_text(IMPORTS + "Require Import Pyrefact.BoolRwModel Pyrefact.ConstFoldModel.\n"
+                     f"Definition cases : list (nat * expr * nat) := [\n {body}\n].\n"
+                     "Eval vm_compute in (bad_idx cons_case_ok cases).\n")
+        cfiles.append(p)
+        cshards.append(shard)
+    cres = common.run_case_files(cfiles)
+    for p, shard in zip(cfiles, cshards):
+        rc, out = cres[p]
+        idx = common.parse_nat_list(out) if rc == 0 else None
+        if idx is None:
+            disagreements.append({"kind": "eval-failed", "file": p.name, "log": out[-1500:]})
+            continue
+        for i in idx:
+            c = shard[i]
+            disagreements.append({"kind": "consumer-case", "rule": c[3], "program": c[4], "output": c[5],
+                                  "observed_code": c[2], "shape": c[0], "expr": T.to_src(c[1])})
 
     # ---- known findings
     kf = common.load_findings(PID)
@@ -467,7 +510,67 @@ RULES_FOR_SHAPE = {
     "comp": ["remove_dead_ifs", "simplify_boolean_expressions"],
     "and": ["remove_redundant_boolop_values", "simplify_boolean_expressions"],
     "or": ["remove_redundant_boolop_values", "simplify_boolean_expressions"],
+    "val": ["simplify_boolean_expressions"],
 }
+
+# (shape, rule) -> shape number of ConstFoldModel.cons_code, and how to read the code off the output
+CONS_SHAPE = {("if", "remove_dead_ifs"): 0, ("while", "remove_dead_ifs"): 1, ("while", "delete_unreachable_code"): 1,
+              ("ifexp", "remove_dead_ifs"): 2, ("if", "delete_unreachable_code"): 3,
+              ("and", "remove_redundant_boolop_values"): 4, ("or", "remove_redundant_boolop_values"): 5,
+              ("val", "simplify_boolean_expressions"): 6}
+
+
+def _norm(text: str) -> str:
+    try:
+        return ast.unparse(ast.parse(text))
+    except SyntaxError:
+        return "\n".join(line.rstrip() for line in text.splitlines() if line.strip())
+
+
+def contains_kind(t, kind: str) -> bool:
+    return t[0] == kind or any(contains_kind(o, kind) for o in T.operands(t))
+
+
+def observed_code(src: str, shape: str, rule: str, text: str, new: str) -> int:
+    """what the rule did to the fixed program shape (see ConstFoldModel.cons_code)"""
+    if new == text or _norm(new) == _norm(text):
+        return 0
+    n = _norm(new)
+    if shape == "if" and rule == "remove_dead_ifs":
+        return {"print(1)": 1, "print(2)": 2}.get(n, 99)
+    if shape == "while":
+        return 3 if n == "print(3)" else 99
+    if shape == "ifexp":
+        return {"print(1)": 1, "print(2)": 2}.get(n, 99)
+    if shape == "if" and rule == "delete_unreachable_code":
+        try:
+            node = ast.parse(new).body[0]
+        except SyntaxError:
+            return 99
+        if not isinstance(node, ast.If) or ast.unparse(node.test) != ast.unparse(ast.parse(src, mode="eval").body):
+            return 99
+        body_dead = all(isinstance(x, ast.Pass) for x in node.body)
+        else_dead = all(isinstance(x, ast.Pass) for x in node.orelse)
+        if else_dead and not body_dead and _norm(ast.unparse(node.body[0])) == "print(1)":
+            return 4
+        if body_dead and not else_dead and _norm(ast.unparse(node.orelse[0])) == "print(2)":
+            return 5
+        return 99
+    if shape in ("and", "or"):
+        try:
+            call = ast.parse(new).body[-1].value
+            arg = call.args[0]
+        except (SyntaxError, AttributeError, IndexError):
+            return 99
+        if ast.unparse(arg) == "f()":
+            return 7
+        if ast.unparse(arg) == ast.unparse(ast.parse(src, mode="eval").body):
+            return 6
+        return 99
+    if shape == "val":
+        return {"print(False)": 10, "print(True)": 11}.get(n, 99)
+    return 99
+
 SINGLETONS = (None, True, False)
 
 
@@ -484,6 +587,39 @@ def outside_claim(t) -> bool:
                 return True
             left = right
     return any(outside_claim(o) for o in T.operands(t))
+
+
+def foldable_shape(t) -> bool:
+    """a single-operator comparison (== != < <= > >=) or `not` over atoms: what the Compare / not branch of
+    simplify_boolean_expressions folds in one step"""
+    atoms = {T.to_src(a) for a in T.ATOMS}
+    if t[0] == "cmp" and len(t[2]) == 1 and t[2][0][0] in ("Eq", "NotEq", "Lt", "LtE", "Gt", "GtE"):
+        return T.to_src(t[1]) in atoms and T.to_src(t[2][0][1]) in atoms
+    return t[0] == "un" and t[1] == "not" and t[2][0] == "const"
+
+
+# witnesses of repaired defects at program level (fixed: lines); they go through the oracle on every run
+FIXED_PROGRAM_WITNESSES = [
+    ("format_code", "if 1/0:\n    print(1)\n"),                                            # F15-1
+    ("format_code", "if 1 + 'a':\n    print(1)\n"),
+    ("format_code", "if {[1]: 2}:\n    print(1)\n"),
+    ("format_code", "if sorted([2, 1, 3], reverse=True) == [1, 2, 3]:\n    print(1)\nelse:\n    print(2)\n"),  # F15-2
+    ("format_code", "if print('x'):\n    print(1)\nelse:\n    print(2)\n"),                 # F15-3
+    ("format_code", "x = 1 < 'a'\nprint(x)\n"),                                             # F15-4
+    ("simplify_boolean_expressions", PROGRAM_PRELUDE + "print(f() == f())\n"),             # F15-5
+    ("format_code", PROGRAM_PRELUDE + "print(f() == f())\n"),
+    ("remove_dead_ifs", "while 0:\n    print(1)\nelse:\n    print(2)\nprint(3)\n"),          # F15-8
+    ("delete_unreachable_code", "while 0:\n    print(1)\nelse:\n    print(2)\nprint(3)\n"),
+    ("format_code", "while 0:\n    print(1)\nelse:\n    print(2)\nprint(3)\n"),
+    ("remove_dead_ifs", "a = (1, 2)\nb = (3,)\nprint([i for i in a for j in b if 0])\n"),  # F15-9
+    ("remove_dead_ifs", "a = (1, 2)\nb = (3,)\nprint([i for i in a if 0 for j in b])\n"),
+    ("remove_dead_ifs", "a = (1, 2)\nprint(sum(i for i in a if 0))\n"),
+    ("remove_dead_ifs", "a = (1, 2)\nprint(sum((i for i in a if 0), 3))\n"),
+    ("remove_dead_ifs", PROGRAM_PRELUDE + "print([i for i in (f(), 2) if 0])\n"),
+    ("remove_dead_ifs", "a = (1, 2)\nprint({i for i in a if 0}, {i: 1 for i in a if 0}, list(i for i in a if 0))\n"),
+    ("remove_dead_ifs", "a = (1, 2)\nprint([i for i in a if 1 if 'a'], [i for i in a if 1 for j in a if j])\n"),
+    ("format_code", "a = (1, 2)\nb = (3,)\nprint([i for i in a for j in b if 0])\n"),
+]
 
 
 # ---- known-finding predicates (keyed by the sig= field) and their stored witnesses ----
